@@ -5,6 +5,8 @@ V = os.path.abspath(os.path.join(os.path.dirname(__file__), ".."))
 sys.path.insert(0, V)
 props = [json.loads(l) for l in open(os.path.join(V, "properties.jsonl"))]
 na = json.load(open(os.path.join(V, "spec", "not_applicable.json")))
+# thorough commands are registered only for checks whose thorough tier completed with exit 0 end to end on this machine
+THOROUGH_OK = set(json.load(open(os.path.join(V, "spec", "thorough_validated.json"))))
 checks, engines = [], {}
 claimed = set()
 for p in props:
@@ -20,7 +22,7 @@ for p in props:
     checks.append(dict(
         property_id=pid,
         quick_cmd="./check %s --tier quick" % pid,
-        thorough_cmd="./check %s --tier thorough" % pid,
+        **({"thorough_cmd": "./check %s --tier thorough" % pid} if pid in THOROUGH_OK else {}),
         evidence_file="evidence/%s.json" % pid,
         replay_cmd_template="./check replay {path}",
         engine=eng,
